@@ -92,9 +92,10 @@ def model_phase(tier):
     def one(sp):
         name, kw, expect_ok = sp
         cfg = mc_cfg("PitchMC_%s_%s.cfg" % (tier, name), **kw)
-        r = vc.run_tlc("PitchMC", cfg=cfg, timeout=1500, heap="4g", workers=4 if name == "grid" else 1, tag="PitchMC-" + name)
+        # (the machines as written violate NoBad by design: no trace-explorer files into spec/)
+        r = vc.run_tlc("PitchMC", cfg=cfg, timeout=1500, heap="4g", workers=(2 if q else 4) if name == "grid" else 1, tag="PitchMC-" + name,
+                       extra=["-noGenerateSpecTE"])
         r.scope = {"name": name, "expect_ok": expect_ok}
-        m = re.search(r'bad = (\{[^}]*\})', r.out[r.out.find("Error: Invariant"):]) if r.violation else None
         mm = re.findall(r'/\\ bad = (\{"[^}]*\})', r.out)
         r.bad = mm[-1] if (r.violation and mm) else ""
         return r
@@ -154,7 +155,7 @@ def check_c10(pid, tier, replay):
     # legs B and C
     if q:
         sweeps = gen_pitch.sweep_histories(gen_pitch.bend_grid(65), split=2)
-        fine = gen_pitch.fine_histories(512)
+        fine = gen_pitch.fine_histories(256)
     else:
         # every one of the 16384 bend values: for 12 keys spread over the keyboard per (range, offset, family) ...
         sweeps = gen_pitch.sweep_histories(all_bends=True, keys=[0, 9, 20, 32, 45, 57, 69, 81, 93, 104, 115, 127], chips=1, split=1,
